@@ -146,6 +146,11 @@ func (el *eventloop) read(c *conn) error {
 
 func (el *eventloop) cread(c *conn) error {
 	for {
+		// after QUIT nothing more is read from the client; it is closed when its replies are out
+		if c.closing {
+			c.buffer = c.buffer[:0]
+			return nil
+		}
 		r, err := c.cread()
 		if err == codec.ErrInvalidResp {
 			logging.Warnf("[%dc] client closed because of invalid resp", c.Fd())
@@ -177,6 +182,12 @@ func (el *eventloop) cread(c *conn) error {
 		switch action {
 		case None:
 		case Close:
+			if !c.inMsgQueue.Empty() {
+				// earlier requests are still unanswered: deliver their replies (and this one) first
+				c.closing = true
+				c.buffer = c.buffer[:0]
+				return nil
+			}
 			return el.closeConn(c, nil, ProxyEof)
 		case Shutdown:
 			return gerrors.ErrEngineShutdown
@@ -343,6 +354,11 @@ func (el *eventloop) flushDone(c *conn) {
 			break
 		}
 		MsgPool.Put(msg)
+	}
+
+	// the client sent QUIT earlier and everything it was owed has now been delivered
+	if c.closing && c.inMsgQueue.Empty() {
+		_ = el.closeConn(c, nil, ProxyEof)
 	}
 }
 
